@@ -16,7 +16,7 @@ import (
 // equivalent by construction (list order, optional whitespace, q=1 ≡ absent,
 // x-gzip ≡ gzip); different meanings are definitely different.
 var selTable = map[string][][]string{
-	"Accept-Encoding": {{"gzip", "x-gzip", "gzip;q=1.0"}, {"gzip, br", "br,gzip", "br, x-gzip"}, {"identity"}, {"x-gzip-ng"}, {"gzip-ng"}, {""}},
+	"Accept-Encoding": {{"gzip", "x-gzip", "gzip;q=1.0"}, {"gzip, br", "br,gzip", "br, x-gzip"}, {"br;q=0"}, {"identity"}, {"x-gzip-ng"}, {"gzip-ng"}, {""}},
 	"Accept-Language": {{"en", "en;q=1"}, {"en, fr;q=0.8", "fr;q=0.8, en", "en,fr;q=0.80"}, {"de"}, {""}},
 	"Accept":          {{"text/html", "text/html;q=1.0"}, {"application/json, text/plain;q=0.5", "text/plain;q=0.5,application/json"}, {"text/html;level=1"}, {"text/html;level=1, text/html;level=2", "text/html;level=2,text/html;level=1"}, {""}},
 	// fields whose values are case-sensitive (a URI path, product tokens): one spelling per meaning
